@@ -11,4 +11,7 @@ theorem C08_stream_publishes_last :
     noneAfter streamFuncSkeleton "yield" "close" = true ∧
     streamFuncSkeleton.contains "finally{" = false := by decide
 
+/-- `stream` / `checkpoint` write a row before handing it on, too -/
+theorem C05_stream_row_written_before_handed_on : before streamResWriterSkeleton "write" "yield" = true := by decide
+
 end Df.Live
